@@ -167,6 +167,21 @@ def run(rep, tier):
     nb = c04.evaluate(rep, cb, ["a", "b"], wd)
     rep.extra["implied_bound_signatures"] = nb
     ncheck += nb
+    # "no elided lifetimes in return types": also when only ONE lifetime of the type is elided and it is not the first (a named
+    # lifetime argument in front of an elided borrow, an elided borrow in the Ok arm next to a named error type)
+    ee = lib.tlc("life", "MC_Lifetimes", "elide.cfg", workers=2, coverage=False, heap="4g")
+    lib.tlc_expect_ok(ee, "partly elided returns")
+    rep.add_tlc("Lifetimes/elide", ee)
+    ce = c04.fix(ee.printed["CASE"])
+    if tier == "quick":
+        random.Random(lib.seed()).shuffle(ce)
+        ce = [c for c in ce if c["sig"]["ret"]["kind"].endswith("_e")][:300] + [c for c in ce if not c["sig"]["ret"]["kind"].endswith("_e")][:100]
+    ne = c04.evaluate(rep, ce, ["a", "b"], wd)
+    rep.extra["partly_elided_return_signatures"] = ne
+    ncheck += ne
+    for c in ce:
+        if not c["accepted"]:
+            rep.nontriv(c["sig"])
     for c in cb:
         if not c["accepted"]:
             rep.nontriv(c["sig"])
